@@ -188,6 +188,49 @@ int main(void) {
 '''
 
 
+def bigindex_tu(rng, n):
+    """Array-subscript / pointer-arithmetic address computation far from the base (element size x index > 2^31): pure address
+    arithmetic inside one 6 GiB PROT_NONE reservation, nothing is dereferenced.  Returns (source, owners)."""
+    elems = [('char', 1), ('short', 2), ('int', 4), ('long', 8), ('long double', 16), ('struct B24', 24), ('struct B4096', 4096), ('int [1000]', 4000)]
+    itypes = ['int', 'unsigned', 'long', 'unsigned long', 'short', 'unsigned char', 'long long']
+    lim = {'int': (-2**31, 2**31 - 1), 'unsigned': (0, 2**32 - 1), 'long': (-2**63, 2**63 - 1), 'unsigned long': (0, 2**64 - 1), 'short': (-2**15, 2**15 - 1),
+           'unsigned char': (0, 255), 'long long': (-2**63, 2**63 - 1)}
+    forms = [('subscript', '&p[i]'), ('add', 'p + i'), ('add-commuted', 'i + p'), ('sub', 'p - i'), ('reverse-subscript', '&i[p]'), ('compound', '(q = p, q += i, q)'),
+             ('compound-sub', '(q = p, q -= i, q)'), ('incr-loop', None), ('diff', None)]
+    lines = ['#include "vrt.h"', 'struct B24 { long a, b, c; }; struct B4096 { char b[4096]; };',
+             'void *mmap(void *, unsigned long, int, int, int, long);', 'int main(void) {',
+             '  char *base = mmap(0, 6UL << 30, 0, 0x4022, -1, 0);   /* PROT_NONE, MAP_PRIVATE|MAP_ANONYMOUS|MAP_NORESERVE */',
+             '  if (base == (char *)-1) return 3;', '  base += 3UL << 30;']
+    owners = []
+    k = 0
+    span = (3 << 30) - 8192
+    for _ in range(n):
+        (et, es) = rng.choice(elems)
+        it = rng.choice(itypes)
+        lo, hi = lim[it]
+        mag = rng.choice([span // es, (2**31) // es, (2**31) // es + 1, (2**32) // es - 1, (2**31) // es - 1, rng.randrange(0, span // es + 1), 3, 1, 0])
+        v = min(mag, span // es)
+        if rng.random() < 0.4:
+            v = -v
+        v = max(lo, min(hi, v))
+        (fname, fexpr) = rng.choice(forms)
+        cls = 'beyond-2^31' if abs(v) * es >= 2**31 else 'small'
+        decl = 'typedef %s E%d%s;' % (et.split(' [')[0], k, '[1000]' if '[' in et else '')
+        if fname == 'incr-loop':
+            body = '{ %s E%d *p = (E%d *)base, *q = p; %s i = %d; q = &p[i]; q++; ++q; q--; OUTV(%d, (char *)q - (char *)p); }' % (decl, k, k, it, v, k)
+        elif fname == 'diff':
+            body = '{ %s E%d *p = (E%d *)base; long off = %dL; E%d *q = (E%d *)(base + off * %d); OUTV(%d, q - p); }' % (decl, k, k, v, k, k, es, k)
+        else:
+            if fname in ('sub', 'compound-sub'):
+                pass
+            body = '{ %s E%d *p = (E%d *)base, *q; %s i = %d; (void)q; OUTV(%d, (char *)(%s) - (char *)p); }' % (decl, k, k, it, v, k, fexpr)
+        lines.append('  ' + body)
+        owners.append(('C04|index-scale|%s|%s|elem%d|%s' % (fname, it.replace(' ', '-'), es, cls), '%s with %s index %d on elements of %d bytes' % (fname, it, v, es)))
+        k += 1
+    lines.append('  return 0; }')
+    return '\n'.join(lines) + '\n', owners
+
+
 def run_tu(a):
     (idx, cc, work, src, probes) = a
     p = os.path.join(work, 'tu%d.c' % idx)
@@ -225,6 +268,9 @@ def run(ctx):
         fns = ['static void t%d(void) %s' % (i, b) for i, b in enumerate(body)]
         calls = ' '.join('dirty_stack(); t%d();' % i for i in range(len(body)))
         src = '\n'.join(lines) + '\n' + '\n'.join(fns) + '\nint main(void) { %s return 0; }\n' % calls
+        tus.append((src, owners, 'access'))
+    for i in range(ctx.scale(4, 40)):
+        src, owners = bigindex_tu(rng, 400)
         tus.append((src, owners, 'access'))
     # VLA / alloca programs
     nv = ctx.scale(24, 200)
